@@ -172,6 +172,8 @@ def value_kinds():
         ("windash", "f1|windash", "-a", True), ("windash-ct", "f1|windash|contains", "-a -b", True),
         ("b64", "f1|base64", "abc", True), ("b64off", "f1|base64offset|contains", "abc", True), ("wide-b64off", "f1|wide|base64offset|contains", "ab", True),
         ("contains", "f1|contains", "abc", True), ("startswith", "f1|startswith", "abc", True), ("endswith", "f1|endswith", "abc", True),
+        ("cased-sw", "f1|cased|startswith", "aBc", True), ("cased-ct", "f1|cased|contains", "aBc", True), ("cased-ew", "f1|cased|endswith", "aBc", True),
+        ("sw-cased", "f1|startswith|cased", "aBc", True), ("ct-cased", "f1|contains|cased", "a*c", True), ("cased-windash", "f1|cased|windash|contains", "-aB", True),
         ("contains-wild", "f1|contains", "a*c", True), ("qfield", "f 3", "abc", True), ("qfield-sw", "f 3|startswith", "abc", True),
     ]
     return vk
